@@ -1,9 +1,9 @@
 SPECIFICATION Spec
 CONSTANTS
   MaxSegs = 4
-  MaxDocs = 9
+  MaxDocs = 16
   SizeSet = {1, 3, 6}
-  Policy <- PolOne
+  Policy <- PolA
 CONSTRAINT Bound
 INVARIANTS MergeConserves MergeProgress OrderMattersOnlyForTies CandidatesDisjoint CandidatesEligible CandidatesJustified CandidatesNonEmpty LevelsPartition LevelsTight
 CHECK_DEADLOCK FALSE
